@@ -10,9 +10,17 @@ PID = "C10"
 BINS = ["x_core"]
 RULE = ("every type without reference unit of the executor universe (Temperature, synthetic 2-unit and 5-unit types, single-unit type; "
         "thorough: + generated ones) x ALL ordered unit pairs (exhaustive) x amount pairs incl. EQUAL amounts in different units, zeros, "
-        "NaN/inf (f64) and random values; the same workload against a second executor build in which the library has no \"std\" feature; ==, !=, <, <=, >, >=, partial_cmp in both orders and +, -, / with per-operation panic capture; "
+        "NaN/inf (f64) and random values; the same workload against a second executor build in which the library has no \"std\" feature and a third one in the release profile (no debug assertions); ==, !=, <, <=, >, >=, partial_cmp in both orders and +, -, / with per-operation panic capture; "
         "cell = (backend,std|no_std,type,u,v,pair kind); non-trivial = different units")
 EXHAUSTIVE = True
+
+
+def prepare(backends):
+    env = cl.prepare(backends, BINS)
+    for b in backends:
+        # an optimised build without debug assertions: the unit guard must not be a debug_assert!
+        env[b]["bins"]["x_core_release"] = fw.build_bins(b, ["x_core"], "release")["x_core"]
+    return env
 
 
 def plan(env, tier, seed):
@@ -22,6 +30,7 @@ def plan(env, tier, seed):
         t.update({"n": n, "seed": seed, "binname": "x_core"})
     for t in list(tasks):
         tasks.append(dict(t, bin=env[t["backend"]]["bins"]["x_core_nostd"], binname="x_core_nostd", n=max(10, n // 4)))
+        tasks.append(dict(t, bin=env[t["backend"]]["bins"]["x_core_release"], binname="x_core_release", n=max(10, n // 4)))
     if tier == "thorough":
         import genuniverse
         gu = genuniverse.build(seed, "C10", 24, kinds=["noref", "noref", "single"])
@@ -86,7 +95,7 @@ def judge(part, case, resps, ctx):
     uu, vu = ent["units"][u], ent["units"][v]
     part.evals += 1
     binname = case.get("bin", "x_core")
-    lib = "no_std" if binname.endswith("nostd") else "std"
+    lib = "no_std" if binname.endswith("nostd") else ("std, release profile" if binname.endswith("release") else "std")
 
     def viol(kind, text):
         sig = {"backend": b, "lib": lib, "type": ty, "u": uu["dbg"], "v": vu["dbg"], "kind": kind,
